@@ -278,8 +278,8 @@ func (v *PacketDslVisitorImpl) VisitFieldDefinitionWithAttribute(ctx *gen.FieldD
 			fs, ok := f.Attr.(*model.FixedStringFieldAttribute)
 			if !ok {
 				v.BinModel.AddSyntaxError(&model.SyntaxError{
-					Line:   f.Line,
-					Column: f.Column,
+					Line:   fieldAttr.GetStart().GetLine(),
+					Column: fieldAttr.GetStart().GetTokenSource().GetCharPositionInLine(),
 					Msg:    "Padding attribute is only allowed on fixed-length string fields, field " + f.Name,
 				})
 				continue
